@@ -857,7 +857,6 @@ pub fn run_step(env: &Env, ctx: &mut ThreadCtx, idx: usize, step: &Step) -> Step
 						(self.0)()
 					}
 				}
-				struct OuterPanic;
 				let ctxp: *mut ThreadCtx = ctx;
 				let mut end = StepEnd::Continue;
 				let endp: *mut StepEnd = &mut end;
@@ -877,7 +876,7 @@ pub fn run_step(env: &Env, ctx: &mut ThreadCtx, idx: usize, step: &Step) -> Step
 							}
 						}
 					});
-					std::panic::panic_any(OuterPanic);
+					std::panic::panic_any(crate::exec::UserPanic);
 				}));
 				if matches!(end, StepEnd::Aborted) {
 					return StepEnd::Aborted;
